@@ -7,6 +7,7 @@ use crate::ledger;
 use crate::util::*;
 use bytes::buf::UninitSlice;
 use bytes::{Buf, BufMut, Bytes, BytesMut};
+#[allow(unused_imports)]
 use std::io::Read;
 use std::panic::{catch_unwind, AssertUnwindSafe};
 use std::sync::atomic::{AtomicUsize, Ordering};
@@ -165,11 +166,13 @@ fn consume(name: &str, script: &[Lie], arg: usize) -> Result<String, ()> {
             "copy_to_bytes" => format!("len {}", lb.copy_to_bytes(arg).len()),
             "take_copy_to_bytes" => format!("len {}", (&mut lb).take(arg + 3).copy_to_bytes(arg).len()),
             "chain_copy_to_bytes" => format!("len {}", (&mut lb).chain(&b"xyz"[..]).copy_to_bytes(arg).len()),
+            #[cfg(feature = "std")]
             "take_chunks_vectored" => {
                 let t = lb.take(arg);
                 let mut io = [std::io::IoSlice::new(&[]); 4];
                 format!("n {}", t.chunks_vectored(&mut io))
             }
+            #[cfg(feature = "std")]
             "chain_chunks_vectored" => {
                 let c = lb.chain(&b"xyz"[..]);
                 let mut io = [std::io::IoSlice::new(&[]); 3];
@@ -217,6 +220,7 @@ fn consume(name: &str, script: &[Lie], arg: usize) -> Result<String, ()> {
                 }
                 format!("n {}", n)
             }
+            #[cfg(feature = "std")]
             "reader_read" => {
                 let mut dst = vec![0u8; arg];
                 format!("{:?}", lb.reader().read(&mut dst).ok())
@@ -265,7 +269,9 @@ pub fn run(args: &[String]) -> i32 {
         ledger::track(true);
         let r = consume(&args[1], &script, arg);
         ledger::track(false);
-        report(&format!("{} {} {}", args[1], show(&script), arg), r, a1);
+        let r2 = r.as_ref().map(|s| s.clone()).map_err(|_| ());
+        drop(r);
+        report(&format!("{} {} {}", args[1], show(&script), arg), r2, a1);
         return 0;
     }
     let n = if thorough { 40000 } else { 4000 };
@@ -339,7 +345,9 @@ pub fn run(args: &[String]) -> i32 {
             format!("len {} {} {}", m.len(), f.len(), b.len())
         }));
         ledger::track(false);
-        report(&format!("extend n={} hint={}:{:?}", n, lower, upper).replace(' ', "_"), r.map_err(|_| ()), a1);
+        let r2 = r.as_ref().map(|s| s.clone()).map_err(|_| ());
+        drop(r);
+        report(&format!("extend n={} hint={}:{:?}", n, lower, upper).replace(' ', "_"), r2, a1);
     }
     println!("advend violations={}", ledger::VIOLATIONS.load(Ordering::SeqCst));
     0
